@@ -156,12 +156,29 @@ func (b *bgen) bschema(from string, depth int, refP float64) M {
 		if b.p(0.2) {
 			s["additionalProperties"] = b.bschema(from, depth-1, refP)
 		}
+		// rarely used holders of a schema: only a $ref or a primitive below them
+		switch b.n(14) {
+		case 0:
+			s["patternProperties"] = M{"^x-": b.leafOrRef(from, refP)}
+			b.hit("holder:patternProperties")
+		case 1:
+			s[b.pick([]string{"anyOf", "oneOf"})] = []any{b.leafOrRef(from, refP), b.leafOrRef(from, refP)}
+			b.hit("holder:anyOf-oneOf")
+		case 2:
+			s["not"] = b.leafOrRef(from, refP)
+			b.hit("holder:not")
+		}
 	case "map":
 		s["type"] = "object"
 		s["additionalProperties"] = b.bschema(from, depth-1, refP)
 	case "array":
 		s["type"] = "array"
 		s["items"] = b.bschema(from, depth-1, refP)
+		if b.p(0.15) {
+			// additionalItems beside a single items schema (no tuple): still a schema position
+			s["additionalItems"] = b.leafOrRef(from, refP)
+			b.hit("holder:additionalItems-no-tuple")
+		}
 	case "tuple":
 		s["type"] = "array"
 		var its []any
@@ -180,6 +197,16 @@ func (b *bgen) bschema(from string, depth int, refP float64) M {
 		s["allOf"] = mem
 	}
 	return s
+}
+
+// leafOrRef: a $ref to a definition reachable from `from`, or a primitive.
+func (b *bgen) leafOrRef(from string, refP float64) M {
+	if refP > 0 && b.p(0.7) {
+		if r, ok := b.schemaRefFrom(from); ok {
+			return M{"$ref": r}
+		}
+	}
+	return M{"type": b.pick([]string{"string", "integer"})}
 }
 
 // refFreeSchema: an imported definition that may collide by name must itself be $ref-free.
@@ -685,6 +712,29 @@ func (b *bgen) injectScenario(name string, rootDefs, paths M, aux map[string]M, 
 		}
 		paths["/scn/clash"] = M{"get": resp(M{"$ref": "#/definitions/" + jsonPtrEscape(holder)}), "put": resp(M{"$ref": "#/definitions/" + jsonPtrEscape(clash)})}
 		g.hit("scenario:generated-name-clash")
+	case "pointer-chain-sections":
+		// a chain of anonymous pointers that crosses sections: a shared parameter's schema points to a shared response's
+		// schema, which points to a sub-schema of a root definition (W without RemoveUnused only)
+		if !b.sharedOK {
+			return
+		}
+		holder := g.pick([]string{"holderC", "chain holder", "ch/n"})
+		prop := g.pick([]string{"part", "a b", "x/y"})
+		var inner M
+		if g.p(0.6) {
+			inner = M{"type": "object", "properties": M{"deep": M{"type": "string"}}}
+		} else {
+			inner = M{"type": "array", "items": M{"type": "integer"}}
+		}
+		rootDefs[holder] = M{"type": "object", "properties": M{prop: inner, "n": M{"type": "integer"}}}
+		resps["chainR"] = M{"description": "chain", "schema": M{"$ref": "#/definitions/" + jsonPtrEscape(holder) + "/properties/" + jsonPtrEscape(prop)}}
+		params["chainP"] = M{"name": "body", "in": "body", "schema": M{"$ref": "#/responses/chainR/schema"}}
+		paths["/scn/chain"] = M{"post": M{"operationId": "scenarioChain", "parameters": []any{M{"$ref": "#/parameters/chainP"}},
+			"responses": M{"200": M{"$ref": "#/responses/chainR"}}}}
+		if g.p(0.5) {
+			paths["/scn/chain2"] = M{"get": resp(M{"$ref": "#/parameters/chainP/schema"})}
+		}
+		g.hit("scenario:pointer-chain-sections")
 	case "case-twins":
 		// an auxiliary document with two $ref-free definitions whose names differ by letter case only, both referred to from
 		// the root: the two imports compete for one generated name (the order of import must not depend on map order)
